@@ -196,14 +196,28 @@ def group_stream(chk):
     reqs, meta = [], []
     for ci, (main, files, scripts, expected, deps, sdeps, r) in enumerate(cases):
         items = sorted(files.items())
-        for variant in range(3):
+        for variant in range(5):
             fl = list(items)
             if variant == 1:
                 fl.reverse()
             elif variant == 2:
                 j = r.below(len(fl))
                 fl = fl[j:] + fl[:j]
-            reqs.append(core.req("group", json.dumps({"files": [[p, s] for p, s in fl], "scripts": [[p, s] for p, s in sorted(scripts.items())]})))
+            if variant >= 3:
+                # a path registered twice: a STALE version of every referenced file and script first, the real ones afterwards — directly (3) or
+                # through import_group (4); the bundle links to what is registered under the path at the end, i.e. the later registration (round 9, C13-10)
+                stale = [[p, '<template name="t">[STALE]</template><template name="u">[STALE]</template><template name="v">[STALE]</template>(STALE)']
+                         for p, _ in fl if p != main]
+                stale_scripts = [[p, "exports.id='STALE'"] for p in sorted(scripts)]
+                real = [[p, s] for p, s in fl if p != main]
+                real_scripts = [[p, s] for p, s in sorted(scripts.items())]
+                if variant == 3:
+                    v = {"files": stale + [[main, files[main]]] + real, "scripts": stale_scripts + real_scripts}
+                else:
+                    v = {"files": stale + [[main, files[main]]], "scripts": stale_scripts, "imports": [{"files": real, "scripts": real_scripts}]}
+                reqs.append(core.req("group", json.dumps(v)))
+            else:
+                reqs.append(core.req("group", json.dumps({"files": [[p, s] for p, s in fl], "scripts": [[p, s] for p, s in sorted(scripts.items())]})))
             meta.append((ci, variant))
     answers = core.run_harness(reqs)
     rreqs, rmeta = [], []
